@@ -164,6 +164,23 @@ fn(SS + "__ior__", cls="ASet", props=["C50"], types={"other": "set", "value": "v
             "implies(result is self, forall(lambda x: " + HV + " == (old(" + HV + ") or (x in other))))", INJ],
    modifies=["contents(self.col)"])
 
+# update(*s) / difference_update(*s) with one set argument (`args:set`: the outer loop over the argument tuple is unrolled, the inner
+# loop carries the invariant of |= / -=)
+fn(SS + "update", cls="ASet", props=["C50"], returns="none", types={"s": "args:set", "iterable": "set", "value": "v"},
+   requires=[INJ, "s[0] is not self.col"],
+   invariant={1: ["forall(lambda m: implies(old(m in self.col), m in self.col))",
+                  "forall(lambda m: implies((m in self.col) and not old(m in self.col), call(self.getter, m) in prefix(seq(iterable), _i)))",
+                  "all(any(call(self.getter, m) is seq(iterable)[j] for m in self.col) for j in range(_i))", INJ]},
+   loop_modifies={1: ["contents(self.col)"]},
+   ensures=["forall(lambda x: " + HV + " == (old(" + HV + ") or (x in s[0])))", INJ],
+   modifies=["contents(self.col)"])
+fn(SS + "difference_update", cls="ASet", props=["C50"], returns="none", types={"s": "args:set", "other": "set", "value": "v"},
+   requires=[INJ, "s[0] is not self.col"],
+   invariant={1: ["forall(lambda x: " + HV + " == (old(" + HV + ") and not (x in prefix(seq(other), _i))))", INJ]},
+   loop_modifies={1: ["contents(self.col)"]},
+   ensures=["forall(lambda x: " + HV + " == (old(" + HV + ") and not (x in s[0])))", INJ],
+   modifies=["contents(self.col)"])
+
 # ---- _AssociationDict.get / setdefault: `self[key]` is the call of __getitem__ (its contract)
 fn(D + "get", cls="ADict", props=["C50"],
    ensures=["implies(dhas(self.col, __key), result is call(self.getter, dget(self.col, __key)))", "implies(not dhas(self.col, __key), result is default)"],
